@@ -444,19 +444,7 @@ func (g *c09Gen) action() bool {
 		op1 := rapid.SampledFrom([]string{"=", "+=", "-=", "*="}).Draw(g.t, "chop1")
 		op2 := rapid.SampledFrom([]string{"=", "+=", "-=", "*="}).Draw(g.t, "chop2")
 		tgt2 := g.target(st, 0)
-		// the inner target must not be rooted in the outer one: whether `x += x = 1` reads
-		// x before or after the inner store is not part of the property
-		root := tgt2
-		for root.K != "id" && len(root.C) > 0 {
-			root = root.C[0]
-		}
-		if root.K == "id" && string(root.S) == a1 {
-			if a1 == "v0" {
-				a1 = "v1"
-			} else {
-				a1 = "v0"
-			}
-		}
+		// (the inner target may be the outer one: `x += x = 1` reads x first, then assigns: DESIGN.md 3)
 		stmts = append(stmts, ast.ExprS(ast.Asg(op1, ast.Id(a1), ast.Asg(op2, tgt2, ast.Num(fmt.Sprint(g.n(1, 4, "chv")))))))
 		label = "chained-assignment"
 	case k == 21:
